@@ -170,6 +170,32 @@ def check_fixed(case, ctx):
     if not after_fit("fit"):
         return
     free = [k for k in names if k not in fixed]
+    # "the non-fixed parameters are estimated" by maximum likelihood *given* the fixed ones: the fit must not end below
+    # the likelihood of its own start (e.g. a closed-form sigma centred on the sample mean instead of the fixed mu).
+    # LogNormalNormFit's 'mle' is the moment estimator by design (KF-C12-4) and is not judged here.
+    if method == "mle" and family != "LogNormalNormFit" and math.isfinite(ll_start):
+        with np.errstate(all="ignore"):
+            ll_fit = float(np.sum(np.log(np.asarray(d.pdf(data), dtype=float))))
+        if math.isfinite(ll_fit) and ll_fit < ll_start - (1e-6 * abs(ll_start) + 1e-2):
+            ctx.violation(f"fixed_fit_loses_likelihood:{family}:{'+'.join(fixed_names)}", f"fixed={fixed} start={before}: log-likelihood {ll_start!r} at the start values, {ll_fit!r} after the fit ({dict(d.parameters)})")
+            return
+    # for the two families whose restricted MLE is a smooth one-parameter problem (no ridge, no boundary optimum):
+    # the free parameter must be (near) the maximiser *given the fixed value* - a 20 % move of it must not gain likelihood
+    if method == "mle" and family in ("LogNormal", "Normal") and len(free) == 1:
+        with np.errstate(all="ignore"):
+            ll_fit = float(np.sum(np.log(np.asarray(d.pdf(data), dtype=float))))
+        k = free[0]
+        v = float(d.parameters[k])
+        sig = float(d.parameters["sigma"])
+        cands = (v * 0.8, v * 1.25) if k == "sigma" else (v - 0.2 * sig, v + 0.2 * sig)
+        for cand in cands:
+            alt = dict(d.parameters)
+            alt[k] = cand
+            with np.errstate(all="ignore"):
+                ll_alt = float(np.sum(np.log(np.asarray(build.dist(family, {a: float(b) for a, b in alt.items()}).pdf(data), dtype=float))))
+            if math.isfinite(ll_fit) and math.isfinite(ll_alt) and ll_alt > ll_fit + max(0.5, 1e-4 * abs(ll_fit)):
+                ctx.violation(f"fixed_fit_not_optimal:{family}:{'+'.join(fixed_names)}", f"fixed={fixed}: fitted {k}={v!r} has log-likelihood {ll_fit!r}, {k}={cand!r} has {ll_alt!r}")
+                return
     # "estimated": only meaningful when the start values give the data a finite likelihood
     if math.isfinite(ll_start) and all(float(d.parameters[k]) == float(before[k]) for k in free):
         # returning the start values is only wrong when they are not already the estimate: look for an admissible
@@ -244,6 +270,9 @@ def strat_fixed(tier):
                     values[k] = draw(st.sampled_from([0.0, 0, -0.0]))
                 elif k in POSITIVE.get(family, []):
                     values[k] = draw(st.sampled_from([1.0, 1]))
+            elif family == "VonMises" and k == "mu" and draw(st.integers(0, 1)) == 0:
+                # a mean direction given outside [-pi, pi] (scipy's own fit wraps locations)
+                values[k] = draw(st.sampled_from([4.0, -5.0, 7.5]))
         start = draw(fam.PLAUSIBLE[family]())
         weights = None
         if method == "wlsq":
